@@ -46,6 +46,8 @@ Fixpoint line_of (text : list N) (idx : nat) : nat :=
   | S i, c :: t => ((if c =? 10 then 1 else 0) + line_of t i)%nat
   end.
 
+Definition line_idx (text : list N) (i : N) : N := N.of_nat (line_of text (N.to_nat i)).
+
 Inductive snres :=
 | SnOk (line_start : N) (source : list (list N)) (range_start range_end : N)   (* rendered source lines, annotation range *)
 | SnPanic.
